@@ -81,6 +81,9 @@ def run(ck):
     ck.log("driver built")
     res = ck.lean(PROPS, PROPS)
     ck.lean_violations(res)
+    if ck.tier == "thorough" and res.ok:
+        for m, log in ck.leanchecker(PROPS):
+            ck.violation("leanchecker:" + m, "leanchecker rejects " + m, {"log": log}, False)
 
     n_d, n_e, n_u = (2500, 1500, 300) if ck.quick else (60000, 40000, 5000)
     reqs = []
